@@ -29,11 +29,17 @@ type Reader struct {
 // A frame adds at most this many bytes of overhead to some data by prefixing
 // the data with:
 //
-//	1: control byte
-//	9: maximum varint stream id
-//	9: maximum varint message id
-//	9: maximum varint data length
-const maxFrameOverhead = 1 + 9 + 9 + 9
+//	 1: control byte
+//	10: maximum varint stream id
+//	10: maximum varint message id
+//	10: maximum varint data length
+//
+// A varint is at most 10 bytes: that is what a 64 bit id of 2^63 or more takes,
+// and what ReadVarint accepts for any value when it is padded with redundant
+// continuation bytes. With a smaller bound, a frame carrying exactly the
+// maximum amount of data behind such a header was accepted when it arrived in
+// one read and rejected as too large when it arrived in pieces.
+const maxFrameOverhead = 1 + 10 + 10 + 10
 
 // NewReader constructs a Reader to read Packets from the io.Reader.
 func NewReader(r io.Reader) *Reader {
